@@ -7,11 +7,11 @@ import vcommon as v
 
 INV_OF = {  # which formulas each property owns (R6: a check reports only its own)
     "C19": ["DrainAll", "TickHonest", "NoLag", "ConservationT", "NothingLost"],
-    "C02": ["ConservationT", "NothingLost", "AckCoversAll", "CloseCovers", "DrainAll"],
+    "C02": ["ConservationT", "NothingLost", "AckCoversAll", "CloseCovers", "DrainAll", "DoneMeansDone"],
     "C09": ["ConservationT", "NothingLost", "AckCoversAll", "CloseCovers", "RequeueKept"],
     "C08": ["RetireRespectsPins", "AckCoversAll"],
 }
-ALL_INV = ["ConservationT", "NothingLost", "AckCoversAll", "CloseCovers", "DrainAll", "RequeueKept", "TickHonest", "NoLag", "RetireRespectsPins"]
+ALL_INV = ["ConservationT", "NothingLost", "AckCoversAll", "CloseCovers", "DrainAll", "RequeueKept", "TickHonest", "NoLag", "RetireRespectsPins", "DoneMeansDone"]
 
 
 def jobs_for(prop, tier, rng):
@@ -128,7 +128,7 @@ def rename(raw_path, out_path):
         elif k == "worker_req":
             out.append({"e": "wreq", "w": a})
         elif k == "worker_done":
-            out.append({"e": "wdone", "w": a})
+            out.append({"e": "wdone", "w": a, "ok": b, "again": c})
         elif k == "tick":
             out.append({"e": "tick", "w": a, "pending": b, "ret": c})
             stat["tick"] += 1
